@@ -356,7 +356,7 @@ def main(argv: Optional[list] = None) -> int:
     # ---- regression replays (seconds-long tier) ----------------------------
     regress_dir = ROOT / "replays" / "regress" / prop
     n_regress = 0
-    if regress_dir.is_dir():
+    if regress_dir.is_dir() and not os.environ.get("VERIF_SKIP_REGRESS"):  # (the switch is for sensitivity experiments only)
         for path in sorted(regress_dir.glob("*.json")):
             try:
                 fam, case, out = _replay_file(check, path)
